@@ -1160,6 +1160,10 @@ func (w *bWorld) apply(c *bCase, st *bStep, exe string) error {
 			case "hidden":
 				// only a hidden entry of the directory changes
 				os.WriteFile(filepath.Join(w.srcPath(st.S), ".env"), []byte(fmt.Sprintf("h-v%d", w.srcVer[st.S])), 0644)
+			case "dangling":
+				// a link to nowhere sits in the directory (an editor's lock file) while a file changes
+				os.Symlink("nowhere", filepath.Join(w.srcPath(st.S), ".#a.txt"))
+				os.WriteFile(filepath.Join(w.srcPath(st.S), "a.txt"), []byte(fmt.Sprintf("d-v%d", w.srcVer[st.S])), 0644)
 			case "hidden-nested":
 				os.WriteFile(filepath.Join(w.srcPath(st.S), ".settings", "level.txt"), []byte(fmt.Sprintf("n-v%d", w.srcVer[st.S])), 0644)
 			default:
